@@ -1,1 +1,2 @@
-
+From Coq Require Import List.
+Theorem placeholder_c14 : True. Proof. exact I. Qed.
